@@ -162,6 +162,19 @@ def part_a(rec, li, n, seed, only=None):
                                     rec.violation("single-axis", "values:float32", dict(case, dtype="float32"), exp, r32.values)
                             except Exception as e:
                                 rec.violation("single-axis", "raise:float32:" + exc_sig(e), dict(case, dtype="float32"), "array", f"{type(e).__name__}: {e}"[:200])
+                            # the same values held in integer dtypes (all rows but the wide-range one are integral;
+                            # a fill value that is not integral cannot be represented there and is not asked for)
+                            if float(fv).is_integer():
+                                for idt in (np.int64, np.int32):
+                                    try:
+                                        ri_ = getattr(g, op)(da.isel(b=slice(0, -1)).astype(idt), "X", **kw)
+                                        rec.calls += 1
+                                        if ri_.dims != r.dims or not np.array_equal(np.asarray(ri_.values, dtype=float), exp[:-1]):
+                                            rec.violation("single-axis", f"values:{np.dtype(idt).name}", dict(case, dtype=np.dtype(idt).name), exp[:-1], ri_.values)
+                                            break
+                                    except Exception as e:
+                                        rec.violation("single-axis", f"raise:{np.dtype(idt).name}:" + exc_sig(e), dict(case, dtype=np.dtype(idt).name), "array", f"{type(e).__name__}: {e}"[:200])
+                                        break
 
 
 # ---------------------------------------------------------------- part (b)
